@@ -82,6 +82,8 @@ func c08Arg(code string) starlark.Value {
 		return c08Fn
 	case "float":
 		return starlark.Float(1.5)
+	case "bytes":
+		return starlark.Bytes("s")
 	}
 	panic("bad arg code " + code)
 }
@@ -110,6 +112,8 @@ func c08Code(v starlark.Value) string {
 			return "prior"
 		}
 		return "str"
+	case starlark.Bytes:
+		return "bytes"
 	case *starlark.List:
 		if v == c08PriorList {
 			return "prior"
@@ -197,6 +201,46 @@ func c08NewTarget(ty string) c08Target {
 	case "Unpacker":
 		u := &c08Unp{got: "prior"}
 		return c08Target{u, func() string { return u.got }}
+	case "String":
+		v := starlark.String("PRIOR")
+		return c08Target{&v, func() string {
+			if v == "PRIOR" {
+				return "prior"
+			}
+			return c08Code(v)
+		}}
+	case "Bytes":
+		v := starlark.Bytes("PRIOR")
+		return c08Target{&v, func() string {
+			if v == "PRIOR" {
+				return "prior"
+			}
+			return c08Code(v)
+		}}
+	case "Float":
+		v := starlark.Float(-999)
+		return c08Target{&v, func() string {
+			if v == -999 {
+				return "prior"
+			}
+			return c08Code(v)
+		}}
+	case "Bool":
+		v := starlark.False
+		return c08Target{&v, func() string {
+			if v {
+				return "true"
+			}
+			return "prior"
+		}}
+	case "Tuple":
+		v := starlark.Tuple{starlark.String("PRIOR")}
+		return c08Target{&v, func() string {
+			if len(v) == 1 && v[0] == starlark.String("PRIOR") {
+				return "prior"
+			}
+			return c08Code(v)
+		}}
 	}
 	panic("bad target type " + ty)
 }
